@@ -306,6 +306,7 @@ def run(ctx):
     r4(ctx, F)
     r5(ctx, F)
     r6(ctx, F)
+    r7_state_hands_over_every_field(ctx, F)
     ctx.not_decided('keeps every provided result that fits; hit results add up to the object count; idempotence of '
                     'generate_state (u32 arithmetic over runtime counts)')
 
@@ -426,3 +427,41 @@ def r6(ctx, F):
                         'the object count whenever misses > 0 (and a second generate_state() call tops the state up differently)' % (
                             f.path, '; '.join('`%s` at line %s' % (w, l) for l, w, _ in bad[:2]), bad[0][2][1] if bad else 0))
     ctx.floor('C12-R6', n6, 6, 'remainder computations (object count minus counts) in generate_state')
+
+
+# ---- R7: Performance::state hands over every field of the ScoreState (seed C12-7: state() rebuilt on a chain of setters that leaves n_geki out)
+def r7_state_hands_over_every_field(ctx, F):
+    """"keeps every provided hit result that fits" starts at the door: the mode-agnostic `Performance::state(s)` either hands `s` over whole (to the payload's
+    `state(s.into())`) or reads each field of ScoreState somewhere (helpers of Performance inlined).  A field that is read nowhere is dropped for every mode —
+    each of the ten fields is a judgement count of at least one mode."""
+    import combin
+    from common import as_param_path
+    PERF = 'any::performance::Performance'
+    SS = 'any::score_state::ScoreState'
+    f = F.method(PERF, 'state', inherent_only=True)
+    adt = F.adts.get(SS)
+    if f is None or adt is None:
+        ctx.violation('C12-R7', 'anchor-missing:Performance::state', 'Performance::state / ScoreState not found')
+        return
+    ctx.saw(f)
+    allf = [x['name'] for x in adt['variants'][0]['fields']]
+    rv = prov.prov_of(f).return_value()
+    rv = prov.inline_all(F, rv, depth=4, _seen=(f.path,), only=lambda f_: (f_.get('impl_adt') or '') == PERF and not f_.get('trait'))
+    rv = combin.expand(F, rv)
+    read = set()
+    whole = False
+    for n in prov.walk(rv, limit=40000):
+        if n[0] == 'call':
+            for a in n[2]:
+                pa = as_param_path(a, through_calls=False)
+                if pa is not None and pa[0] == 2 and pa[1] == ():
+                    whole = True
+        pp = as_param_path(n, through_calls=False)
+        if pp and pp[0] == 2 and pp[1]:
+            read.add(pp[1][0])
+    missing = [x for x in allf if x not in read]
+    ctx.require(whole or not missing, 'C12-R7', 'state:every-field', 'Performance::state hands the ScoreState over %s' % (
+        'whole to the mode builder' if whole else 'field by field, all %d fields' % len(allf)), f.where(),
+        bad='Performance::state never reads %s of the ScoreState it is given (and does not hand the state over whole): that judgement count is dropped and later '
+            're-derived as a remainder, so a provided hit result is not kept' % ', '.join('`%s`' % m_ for m_ in missing))
+    ctx.floor('C12-R7', len(allf), 10, 'fields of ScoreState')
